@@ -442,7 +442,10 @@ def execute(drv, setup, program, label=""):
             # context objects may be made long before they are entered
             early = {id(n): ctrl(**n["map"]) for n in nodes if n["t"] == "block" and n.get("early")}
             for node in nodes:
-                if node["t"] == "invoke":
+                if node["t"] == "update":
+                    ctrl.update_current_context(**node["map"])
+                    evs.append(["update", pairs(node["map"]), ctx_now(), flush()])
+                elif node["t"] == "invoke":
                     used.add(node["meth"])
                     if node["meth"] == "load_application":
                         net.count_reply = sum(len(c) for c in drv.star["load_application"][1].values())
@@ -484,7 +487,8 @@ def execute(drv, setup, program, label=""):
                         if node["kind"] == "app":
                             evs.append(["app", call["pos_enc"], call["kw_enc"], ["ok"], flush(), ctx_now()])
                         else:
-                            evs.append(["enter", pairs(node["map"]), ctx_now(), flush()])
+                            evs.append(["enter", pairs(node["map"]), ctx_now(), flush(),
+                                        0 if node.get("keep") is None else node["keep"] + 1])
                         run_nodes(node["children"])
                         net.fail_signals = bool(node.get("stop_fails"))
                         if node["raises"]:
@@ -641,10 +645,18 @@ def random_program(drv, rng, draw_values, names, light_only):
 
     keepers = []               # (key, map) of context objects that the program keeps and enters again
 
-    def gen(depth):
+    def gen(depth, parent="none"):
         nodes = []
         for _ in range(rng.randint(1, 3 if depth else 4)):
             r = rng.random()
+            if rng.random() < 0.07:
+                # the innermost block's arguments (or, outside any block, the initial context) changed in place
+                v = draw_values()
+                # (directly inside an application block the application id is left alone: which application such a
+                # block then stops is not something the property speaks about)
+                nodes.append(dict(t="update", map={n: v[n] for n in names
+                                                   if rng.random() < 0.5 and not (parent == "app" and n == "app_id")}))
+                continue
             if r < 0.55 or depth >= 3:
                 name = rng.choice(pool)
                 if name in HEAVY and rng.random() < 0.7:
@@ -673,7 +685,7 @@ def random_program(drv, rng, draw_values, names, light_only):
                                        early=rng.random() < 0.3))
             else:
                 call = drv.app_call(rng, draw_values()["app_id"], rng.choice(("pos", "kw", "ctx")))
-                nodes.append(block("app", gen(depth + 1), rng.random() < 0.25, rng.random() < 0.5, call=call,
+                nodes.append(block("app", gen(depth + 1, "app"), rng.random() < 0.25, rng.random() < 0.5, call=call,
                                    stop_fails=rng.random() < 0.15))
         return nodes
     return gen(0)
@@ -818,7 +830,7 @@ def run(chk):
         "the simulated machine acknowledges every command (no time-outs, no error codes); replies are canned",
         "SCP field layout of the app id (CMD_ALLOC, CMD_RTR, CMD_SIG, flood-fill end) is written in Context.tla",
         "the board controller is only driven towards (cabinet, frame) pairs for which a connection was given",
-        "contexts are only changed through `with`; update_current_context is not driven"]
+        "update_current_context is driven in the random programs only (the small-scope chains change contexts through `with` alone)"]
     for t in (traces[3], traces[len(traces) // 2], traces[-1]):
         chk.sample(dict(t, ev=t["ev"][:6], prog="(omitted)"))
     chk.validate("ContextTrace", "ContextTrace.cfg", traces, key_of=key_of, batch=2000)
